@@ -32,6 +32,8 @@ def generate(seed, tier, enlarged=False):
         cases.append({'kind': 'structview', 'hist': struct.gen_history(rng, rng.randint(3, 8), allow_bad=False)})
     for i in range(n // 4):
         cases.append(live.gen_case(rng))
+    # corpus: known finding K11 (a glob sub-variable declared by a process that enters at run time)
+    cases += live.corpus_k11()
     return cases
 
 
